@@ -4,12 +4,14 @@ package main
 
 import (
 	"fmt"
+	"io"
 	"math"
 	"sort"
 	"strings"
 
 	"seehuhn.de/go/geom/rect"
 	"seehuhn.de/go/postscript/afm"
+	"seehuhn.de/go/postscript/funit"
 	"seehuhn.de/go/postscript/type1"
 )
 
@@ -307,7 +309,34 @@ func suiteQuery(o *suiteOut, r *rng, tier string, n int) {
 			}
 		}
 		o.count("afm metrics")
+		// a nil entry in Glyphs is skipped like a blank glyph (Write and GlyphWidthPDF check for it explicitly)
+		if i%10 == 0 {
+			wantBox := m.FontBBoxPDF()
+			m.Glyphs["zz-nil"] = nil
+			res := func() (s string) {
+				defer func() {
+					if p := recover(); p != nil {
+						s = "panic: " + fmt.Sprint(p)
+					}
+				}()
+				if fb := m.FontBBoxPDF(); fb != wantBox {
+					return "font box " + fmt.Sprint(fb)
+				}
+				m.GlyphWidthPDF("zz-nil")
+				if err := m.Write(io.Discard); err != nil {
+					return "write: " + err.Error()
+				}
+				return ""
+			}()
+			if res != "" {
+				o.fail("C19", "a nil entry in Metrics.Glyphs counts as a blank glyph in every query", "afm nil glyph "+aline, "font box "+fmt.Sprint(wantBox), res)
+			}
+			delete(m.Glyphs, "zz-nil")
+			o.count("afm metrics with a nil entry")
+		}
 	}
+	funitExtendCases(o, r, nr)
+	o.notes = append(o.notes, "funit.Rect16.Extend / funit.Rect.Extend: accumulation of random box sequences with blank (zero) boxes at every position, against the union of the non-zero boxes and against the Lean model (fbox funit16 / funit)")
 	o.notes = append(o.notes, "random glyph sets (with/without .notdef), encodings (absent, partial, naming missing glyphs, one glyph at several codes), integer end points, axis-aligned font matrices; every query method against an independent recomputation; glyph lists, boxes and font boxes also against the Lean model")
 }
 
@@ -395,4 +424,56 @@ func init() {
 	replayers["glist"] = replayQuery
 	replayers["bbox"] = replayQuery
 	replayers["fbox"] = replayQuery
+}
+
+// funitExtendCases: the union code of package funit (used by callers that accumulate a font box over glyph boxes)
+func funitExtendCases(o *suiteOut, r *rng, nr int) {
+	type box struct{ llx, lly, urx, ury int }
+	for i := 0; i < nr; i++ {
+		n := r.rangeInt(0, 6)
+		var bs []box
+		for j := 0; j < n; j++ {
+			if r.chance(1, 3) {
+				bs = append(bs, box{}) // blank glyph
+				continue
+			}
+			x, y := r.rangeInt(-1000, 1000), r.rangeInt(-1000, 1000)
+			bs = append(bs, box{x, y, x + r.rangeInt(0, 1200), y + r.rangeInt(0, 1200)})
+		}
+		// expected: union of the non-zero boxes
+		var want box
+		first := true
+		var cases []string
+		for _, b := range bs {
+			cases = append(cases, fmt.Sprintf("%d:%d:%d:%d", b.llx, b.lly, b.urx, b.ury))
+			if b == (box{}) {
+				continue
+			}
+			if first {
+				want, first = b, false
+				continue
+			}
+			want = box{min(want.llx, b.llx), min(want.lly, b.lly), max(want.urx, b.urx), max(want.ury, b.ury)}
+		}
+		var r16 funit.Rect16
+		var rr funit.Rect
+		for _, b := range bs {
+			r16.Extend(funit.Rect16{LLx: funit.Int16(b.llx), LLy: funit.Int16(b.lly), URx: funit.Int16(b.urx), URy: funit.Int16(b.ury)})
+			rr.Extend(funit.Rect{LLx: funit.Int(b.llx), LLy: funit.Int(b.lly), URx: funit.Int(b.urx), URy: funit.Int(b.ury)})
+		}
+		got16 := box{int(r16.LLx), int(r16.LLy), int(r16.URx), int(r16.URy)}
+		got := box{int(rr.LLx), int(rr.LLy), int(rr.URx), int(rr.URy)}
+		line := strings.Join(cases, ";")
+		if got16 != want || r16.IsZero() != (want == box{}) {
+			o.fail("C19", "funit.Rect16.Extend accumulates the union of the non-empty boxes", "fbox funit16 "+line, fmt.Sprint(want), fmt.Sprint(got16))
+		}
+		if got != want || rr.IsZero() != (want == box{}) {
+			o.fail("C19", "funit.Rect.Extend accumulates the union of the non-empty boxes", "fbox funit "+line, fmt.Sprint(want), fmt.Sprint(got))
+		}
+		if len(cases) > 0 {
+			o.emit("fbox funit16 "+line, fmt.Sprintf("%d %d %d %d", got16.llx, got16.lly, got16.urx, got16.ury), len(cases) > 1)
+			o.emit("fbox funit "+line, fmt.Sprintf("%d %d %d %d", got.llx, got.lly, got.urx, got.ury), len(cases) > 1)
+		}
+		o.count("funit box accumulations")
+	}
 }
